@@ -443,11 +443,11 @@ pub fn run(ctx: &mut Ctx, rep: &mut Report) {
 
     // ---------------------------------------------------------------- scan
     if ctx.wants("scan") {
-        rep.space("scan", "Scanner next()-to-exhaustion and max() over lengths 0..=70 and around 992/1024/8192, block sizes {1,3,256}, thresholds {low, mid}, 3 dispatcher arms, motif widths 2 and 34");
+        rep.space("scan", "Scanner next()-to-exhaustion, next();max() and max() over lengths 0..=70 and around 992/1024/8192, block sizes {1,3,256}, thresholds {low, mid}, 3 dispatcher arms, motif widths 2, 18 and 34, on the configured sequence and on an exact-capacity clone of it");
         let mut lens: Vec<usize> = (0..=70).collect();
         lens.extend([991, 992, 993, 1000, 1023, 1024, 1025, 8160, 8191, 8192, 8193]);
         for len in lens {
-            for mdig in [vec![0u8, 1], vec![0u8; 34]] {
+            for mdig in [vec![0u8, 1], vec![0u8; 18], vec![0u8; 34]] {
                 let mine = ctx.mine(idx);
                 idx += 1;
                 if !mine {
@@ -461,14 +461,21 @@ pub fn run(ctx: &mut Ctx, rep: &mut Report) {
                             continue;
                         }
                         for arm in cfgs::FORCED {
-                            for mode in 0..2 {
-                                let cfg = c02::Config { seq: seq.clone(), matrix: matrix.clone(), threshold: t, block, arm, origin: format!("c06 scan L={} M={}", len, mdig.len()), pre_wrap: if block == 3 { Some(1) } else { None } };
-                                let module = if mode == 0 { "C02" } else { "C03" };
-                                if !crumb(|| wrap(module, cfg.json())) {
+                            // modes: 0 next()-to-exhaustion, 1 next();max(), 2 max() at once; 3..=5 the same on an
+                            // exact-capacity CLONE of the configured sequence (no spare rows behind the look-ahead rows)
+                            for mode in 0..6 {
+                                let exact = mode >= 3;
+                                let cfg = c02::Config { seq: seq.clone(), matrix: matrix.clone(), threshold: t, block, arm, origin: format!("c06 scan L={} M={}", len, mdig.len()), pre_wrap: if block == 3 { Some(1) } else { None }, exact };
+                                let module = if mode % 3 == 0 { "C02" } else { "C03" };
+                                if !crumb(|| {
+                                    let mut j = cfg.json();
+                                    j["k"] = serde_json::json!(if mode % 3 == 1 { 1 } else { 0 });
+                                    wrap(module, j)
+                                }) {
                                     continue;
                                 }
                                 rep.eval_distinct(len >= mdig.len());
-                                let r = c02::run_scanner(&cfg, &if mode == 0 { c02::After::Exhaust } else { c02::After::Max(1) });
+                                let r = c02::run_scanner(&cfg, &match mode % 3 { 0 => c02::After::Exhaust, 1 => c02::After::Max(1), _ => c02::After::Max(0) });
                                 if let Err(msg) = r {
                                     memory_panic(rep, module, cfgs::arm_name(arm), &msg, || cfg.json());
                                 }
